@@ -663,11 +663,9 @@ def _fmt_summary(ex, func, args, kwargs, so, node):
 
 
 def _drv_summary(ex, func, args, kwargs, so, node):
-    names = func.params
-    b = {}
-    for i, a in enumerate(args):
-        b[names[i]] = a
-    b.update(kwargs)
+    from .common import bind_call
+
+    b = bind_call(ex, func, args, kwargs)
     ex.emit("driver_call", node, driver=func.qualname, bound=b)
     ex.list_counter += 1
     sel = ListV([], opaque=True, lid=ex.list_counter)
